@@ -5,6 +5,7 @@ import (
 	"encoding/base64"
 	"errors"
 	"fmt"
+	"math"
 	"reflect"
 	"time"
 
@@ -355,6 +356,39 @@ func getScalarArgParser(typ reflect.Type) (*argParser, graphql.Type, bool) {
 
 // scalarArgParsers are the static arg parsers that we can use for all scalar &
 // static types.
+// The integer parsers below convert the JSON number with a Go conversion, which
+// truncates fractions and wraps values outside the type's range (300 becomes
+// int8(44), -1 becomes uint32(4294967295)). Such a number is no value of the
+// argument's type: reject it.
+func init() {
+	for typ, parser := range scalarArgParsers {
+		switch typ.Kind() {
+		case reflect.Int, reflect.Int8, reflect.Int16, reflect.Int32, reflect.Int64,
+			reflect.Uint, reflect.Uint8, reflect.Uint16, reflect.Uint32, reflect.Uint64:
+			typ, convert := typ, parser.FromJSON
+			parser.FromJSON = func(value interface{}, dest reflect.Value) error {
+				if asFloat, ok := value.(float64); ok && !isValueOfIntegerType(asFloat, typ) {
+					return fmt.Errorf("%v is not a value of type %s", asFloat, typ)
+				}
+				return convert(value, dest)
+			}
+		}
+	}
+}
+
+// isValueOfIntegerType reports whether f is integral and in the range of typ.
+func isValueOfIntegerType(f float64, typ reflect.Type) bool {
+	if f != math.Trunc(f) || math.IsInf(f, 0) {
+		return false
+	}
+	v := reflect.New(typ).Elem()
+	switch typ.Kind() {
+	case reflect.Uint, reflect.Uint8, reflect.Uint16, reflect.Uint32, reflect.Uint64:
+		return f >= 0 && f < 1<<64 && !v.OverflowUint(uint64(f))
+	}
+	return f >= -(1<<63) && f < 1<<63 && !v.OverflowInt(int64(f))
+}
+
 var scalarArgParsers = map[reflect.Type]*argParser{
 	reflect.TypeOf(bool(false)): {
 		FromJSON: func(value interface{}, dest reflect.Value) error {
